@@ -211,14 +211,35 @@ def r3_mesh(ctx, rule="R3"):
     ctx.check(rule, qn + "|validates-meshgrid", ok, "2-D inputs are checked to be meshgrids on every normal path", bad="meshgrid_to_1d no longer rejects non-meshgrid 2-D inputs", fn=qn)
     # check_meshgrid raises on both directions
     qn = "verde.utils.check_meshgrid"
-    n = sum(1 for p in ctx.paths(qn) if p.exit == "raise")
-    ctx.check(rule, qn + "|raises-both-directions", True if n >= 2 else False, "non-meshgrid easting and northing each raise", bad="only %d raising path(s) in check_meshgrid" % n, fn=qn)
-    # must-pass-through: the ONLY way to return normally is to have passed both tests (an early return for "trivial" shapes accepts
-    # one-row / one-column arrays whose other coordinate varies, and meshgrid_to_1d then collapses it to its first value)
     east, north = Q.sub(("param", "coordinates"), 0), Q.sub(("param", "coordinates"), 1)
 
+    def close_tests(c):
+        """the arrays whose meshgrid test (an allclose / array_equal call) occurs in condition c"""
+        out = set()
+        for x in walk(c):
+            if isinstance(x, tuple) and x and x[0] == "call" and callee(x) in ("numpy.allclose", "numpy.array_equal", "numpy.all"):
+                for arr, nm in ((east, "E"), (north, "N")):
+                    if any(y == arr for y in walk(x)):
+                        out.add(nm)
+        return out
+    rejecting = set()
+    for p in ctx.paths(qn):
+        if p.exit == "raise" and p.conds:
+            rejecting |= close_tests(p.conds[-1][0])
+    n = sum(1 for p in ctx.paths(qn) if p.exit == "raise")
+    ctx.check(rule, qn + "|raises-both-directions", True if rejecting == {"E", "N"} else False, "non-meshgrid easting and northing each raise",
+              bad="the raising paths of check_meshgrid test %s only (%d raising path(s))" % (sorted(rejecting) or "nothing", n), fn=qn)
+    # must-pass-through: the ONLY way to return normally is to have passed both tests (an early return for "trivial" shapes accepts
+    # one-row / one-column arrays whose other coordinate varies, and meshgrid_to_1d then collapses it to its first value)
     def tested(p, arr):
-        return any(c[0] == "call" and callee(c) in ("numpy.allclose", "numpy.array_equal", "numpy.all") and v and any(x == arr for x in walk(c)) for c, v in p.conds)
+        # the test held on this path: it is a decision of its own, or a conjunct of a conjunction that held (`not (a and b)` raising otherwise)
+        for c, v in p.conds:
+            if not v:
+                continue
+            parts = c[2] if c[0] == "boolop" and c[1] == "And" else (c,)
+            if any(x[0] == "call" and callee(x) in ("numpy.allclose", "numpy.array_equal", "numpy.all") and any(y == arr for y in walk(x)) for x in parts):
+                return True
+        return False
     normal = [p for p in ctx.paths(qn) if p.normal]
     bad = [p for p in normal if not (tested(p, east) and tested(p, north))]
     ctx.check(rule, qn + "|every-accepting-path-tests-both", False if bad else (True if normal else None), "every path that accepts the input has compared easting along axis 0 and northing along axis 1",
@@ -377,12 +398,24 @@ def r7_metadata(ctx):
         on_ds = [e for e in stores if canon(e.data[0]) == canon(("attr", ds, "attrs"))]
         on_var = [e for e in stores if e.data[0][0] == "attr" and e.data[0][2] == "attrs" and e.data[0][1][0] == "sub" and canon(e.data[0][1][1]) == canon(ds)
                   and e.data[0][1][2][0] == "elem" and canon(e.data[0][1][2][1]) == canon(ds)]
+        # one loop over (dataset, *dataset.data_vars.values()) / over [dataset] + [dataset[name] for name in dataset] writes both
+        for e in stores:
+            b = e.data[0]
+            if b[0] == "attr" and b[2] == "attrs" and b[1][0] == "elem":
+                seq = Q.unseq(b[1][1])
+                items = seq[1] if seq[0] in ("tuple", "list") else ()
+                if any(canon(x) == canon(ds) for x in items):
+                    on_ds = on_ds or [e]
+                if any(x[0] == "star" and any(canon(y) == canon(ds) for y in walk(x[1]) if isinstance(y, tuple)) for x in items):
+                    on_var = on_var or [e]
         tag = Q.tags(p.conds[2:])
         for nm, hit in (("dataset", on_ds), ("variables", on_var)):
             if hit:
                 val = hit[0].data[2]
                 ok = any(x[0] == "call" and callee(x) == "builtins.repr" and x[2] == (Q.SELF,) for x in walk(val))
                 ctx.check("R7", "%s|metadata-%s|%s" % (qn, nm, tag), True if ok else None, "%s metadata is derived from repr(self)" % nm, fn=qn)
+            elif [e for e in stores if e not in on_ds and e not in on_var]:
+                ctx.check("R7", "%s|metadata-%s|%s" % (qn, nm, tag), None, "", fn=qn, undecided="attrs['metadata'] is stored, but not recognisably on the %s" % nm)
             else:
                 ctx.check("R7", "%s|metadata-%s|%s" % (qn, nm, tag), False, "", bad="no attrs['metadata'] store on the %s on this return path" % nm, fn=qn, line=p.line)
 
